@@ -348,11 +348,21 @@ fn wire_stop_hooks(puppets: &[Box<dyn PuppetCtl>], attachers: &[Arc<dyn Fn() + S
         if let Some((what, j)) = p.on_stop() {
             if let Some(other) = puppets.iter().find(|q| q.id() == j && q.id() != p.id()) {
                 let other = other.clone_ctl();
+                let second = p.on_stop2().and_then(|(w2, j2)| {
+                    puppets.iter().find(|q| q.id() == j2 && q.id() != p.id()).map(|q| (w2, q.clone_ctl()))
+                });
                 p.set_stop_hook(Arc::new(move || {
                     if what == 0 {
                         other.greet_all();
                     } else {
                         other.emit_all();
+                    }
+                    if let Some((w2, o2)) = &second {
+                        if *w2 == 0 {
+                            o2.greet_all();
+                        } else {
+                            o2.emit_all();
+                        }
                     }
                 }));
             }
@@ -685,5 +695,5 @@ pub fn gen_puppet_spec(c: &mut Chooser, allow_late: bool, modes: &[Mode], fins: 
         fin = Fin::End;
     }
     let burst = if mode == Mode::Listen && c.chance(1, 3) { 1 + c.choose(3) } else { 0 };
-    PuppetSpec { mode, late, fin, burst, eager_end: false, per_pull: 1, on_stop: None, feedback: None, on_pull: None }
+    PuppetSpec { mode, late, fin, burst, eager_end: false, per_pull: 1, on_stop: None, on_stop2: None, feedback: None, on_pull: None }
 }
